@@ -3,284 +3,21 @@
 // track_table and sqlite_modern_cpp over the key/value sqlite3 model.
 #include "verif.h"
 #include "v2_unity.h"
-typedef std::chrono::system_clock::time_point tp_t;
-static uint64_t B(double d) { return verif::bits(d); }
-static uint64_t g_opt = 0;
-static bool present() { bool p = (verif_param("mask") >> (g_opt % 60)) & 1; ++g_opt; return p; }
-static std::string S(const char* n, size_t len = 2) { std::string s(len, 'x'); if (verif_param("focus") == 0 || verif_param("focus") == 3 || verif_param("focus") == 2) verif_bytes(s.data(), len, n); return s; }
-static std::optional<std::string> OS(const char* n) { if (!present()) return std::nullopt; return S(n); }
-static bool same_str(const std::string& a, const std::string& b)
-{
-    if (a.size() != b.size()) return false;
-    unsigned d = 0; for (size_t i = 0; i < a.size(); ++i) d |= (unsigned char)(a[i] ^ b[i]);
-    return d == 0;
-}
-static bool eq_os(const std::optional<std::string>& a, const std::optional<std::string>& b) { return a.has_value() == b.has_value() && (!a || same_str(*a, *b)); }
-static bool eq_od(const std::optional<double>& a, const std::optional<double>& b) { return a.has_value() == b.has_value() && (!a || B(*a) == B(*b)); }
-static pad_color col() { return pad_color{verif_u8("r"), verif_u8("g"), verif_u8("b"), verif_u8("a")}; }
-
-// "focus" run parameter: which group of fields is symbolic in this run (0 = all; the others take fixed ordinary values), so
-// that the sentinel comparisons of one group do not multiply with those of another
-static bool foc(uint64_t g, uint64_t sub = 0) { uint64_t f = verif_param("focus"); return f == 0 || f == g || (sub && f == sub); }   // 11..17: a single numeric field of group 1
-static double D(uint64_t g, const char* n, double dflt, uint64_t sub = 0) { return foc(g, sub) ? verif::f64(n) : dflt; }
-static int32_t I32(uint64_t g, const char* n, int32_t dflt, uint64_t sub = 0) { return foc(g, sub) ? verif::i32(n) : dflt; }
-static track_snapshot sym_snapshot()
-{
-    track_snapshot s;
-    s.album = OS("album"); s.artist = OS("artist");
-    if (present()) s.average_loudness = D(1, "loudness", 0.5, 11);
-    uint64_t nb = verif_param("grid");
-    for (uint64_t i = 0; i < nb; ++i) { beatgrid_marker m; m.index = I32(3, "grid.index", (int32_t)i * 4); m.sample_offset = D(3, "grid.offset", 1000.0 * i); s.beatgrid.push_back(m); }
-    if (present()) s.bitrate = I32(3, "bitrate", 320);
-    if (present()) s.bpm = foc(1, 12) ? (double)verif_range_u32(0, 1u << 20, "bpm") : 120.5;      // integer-valued 0 .. 2^20 (the stored integer copy is a double->int cast: fractional and extreme values are outside, see C15)
-    s.comment = OS("comment"); s.composer = OS("composer");
-    if (present()) s.duration = std::chrono::milliseconds{foc(1, 13) ? (int64_t)verif_range_u64(0, 1ull << 40, "duration_ms") : 123456};
-    if (present()) s.file_bytes = foc(3) ? verif_u64("file_bytes") : 1000;
-    s.genre = OS("genre");
-    uint64_t cm = verif_param("cues");       // bit i: slot i holds a cue; number of slots given = highest bit + 1
-    for (int i = 0; i < 8 && (cm >> i); ++i)
-    {
-        if ((cm >> i) & 1) { hot_cue c; c.label = S("cue.label", 1 + i % 2); c.sample_offset = D(2, "cue.offset", 100.0 + i); c.color = foc(2) ? col() : pad_color{1, 2, 3, 4}; s.hot_cues.push_back(c); }
-        else s.hot_cues.push_back(std::nullopt);
-    }
-    if (present()) { uint32_t k = foc(3) ? verif_range_u32(0, 23, "key") : 5; s.key = static_cast<musical_key>(k); }
-    if (present()) s.last_played_at = tp_t{std::chrono::nanoseconds{foc(3) ? (int64_t)verif_range_u64(0, 4000000000000000000ull, "last_played_ns") : 1600000000123456789ll}};
-    uint64_t lm = verif_param("loops");
-    for (int i = 0; i < 8 && (lm >> i); ++i)
-    {
-        if ((lm >> i) & 1) { loop l; l.label = S("loop.label", 1 + i % 2); l.start_sample_offset = D(2, "loop.start", 10.0 + i); l.end_sample_offset = D(2, "loop.end", 20.0 + i); l.color = foc(2) ? col() : pad_color{5, 6, 7, 8}; s.loops.push_back(l); }
-        else s.loops.push_back(std::nullopt);
-    }
-    if (present()) s.main_cue = D(1, "main_cue", 42.0, 14);
-    s.publisher = OS("publisher");
-    if (present()) s.rating = I32(1, "rating", 60, 15);
-    s.relative_path = std::string{"dir/"} + S("fname", 1) + std::string{".mp3"};
-    uint64_t nw = verif_param("wave");
-    if (nw)
-    {   // the waveform is resampled using the recommended extents: sample count and rate are concrete when a waveform is given
-        s.sample_count = 1000000ull; s.sample_rate = 44100.0;
-        for (uint64_t i = 0; i < nw; ++i) { waveform_entry w; w.low.value = verif_u8("w.low"); w.mid.value = verif_u8("w.mid"); w.high.value = verif_u8("w.high"); s.waveform.push_back(w); }
-    }
-    else
-    {
-        if (present()) s.sample_count = foc(1, 16) ? verif_u64("sample_count") : 5000000ull;
-        if (present()) s.sample_rate = D(1, "sample_rate", 48000.0, 17);
-    }
-    s.title = OS("title");
-    if (present()) s.track_number = I32(3, "track_number", 7);
-    if (present()) s.year = I32(3, "year", 1999);
-    return s;
-}
-
-// the statement's normalisation, field by field (written from the property text and the public header comments)
-static std::optional<double> n_zero_is_none(const std::optional<double>& v) { std::optional<double> r; if (v && !(*v == 0)) r = *v; return r; }
-static track_snapshot norm(const track_snapshot& s)
-{
-    track_snapshot n = s;
-    n.average_loudness = n_zero_is_none(s.average_loudness);           // 0 = no loudness
-    n.main_cue = n_zero_is_none(s.main_cue);                           // 0 = no main cue
-    n.sample_rate = n_zero_is_none(s.sample_rate);                     // 0 = no sample rate
-    if (s.sample_count && *s.sample_count == 0) n.sample_count = std::nullopt;
-    if (s.duration) { auto secs = s.duration->count() / 1000; if (secs == 0) n.duration.reset(); else n.duration = std::chrono::milliseconds{secs * 1000}; }   // whole seconds
-    if (s.last_played_at) n.last_played_at = tp_t{std::chrono::seconds{std::chrono::duration_cast<std::chrono::seconds>(s.last_played_at->time_since_epoch()).count()}};
-    if (s.rating) { int r = *s.rating < 0 ? 0 : (*s.rating > 100 ? 100 : *s.rating); if (r == 0) n.rating.reset(); else n.rating = r; }   // clamped to 0..100, 0 = no rating
-    n.hot_cues.clear();
-    for (auto& c : s.hot_cues) n.hot_cues.push_back((c && c->sample_offset == -1) ? std::nullopt : c);      // -1 = empty cue slot
-    while (n.hot_cues.size() < 8) n.hot_cues.push_back(std::nullopt);                                          // padded to eight slots
-    n.loops = s.loops;
-    while (n.loops.size() < 8) n.loops.push_back(std::nullopt);
-    return n;
-}
-#define F(c, name) verif_assert((c), "snapshot." name " differs")
-static void eq_snapshot(const track_snapshot& a, const track_snapshot& b, const char* skip = "", bool with_waveform = true)
-{
-#define SK(n) (std::strcmp(skip, n) == 0)
-    if (!SK("album")) F(eq_os(a.album, b.album), "album");
-    if (!SK("artist")) F(eq_os(a.artist, b.artist), "artist");
-    if (!SK("average_loudness")) F(eq_od(a.average_loudness, b.average_loudness), "average_loudness");
-    if (!SK("beatgrid"))
-    {
-        F(a.beatgrid.size() == b.beatgrid.size(), "beatgrid size");
-        for (size_t i = 0; i < a.beatgrid.size() && i < b.beatgrid.size(); ++i) F(a.beatgrid[i].index == b.beatgrid[i].index && B(a.beatgrid[i].sample_offset) == B(b.beatgrid[i].sample_offset), "beatgrid marker");
-    }
-    if (!SK("bitrate")) F(a.bitrate == b.bitrate, "bitrate");
-    if (!SK("bpm")) F(eq_od(a.bpm, b.bpm), "bpm");
-    if (!SK("comment")) F(eq_os(a.comment, b.comment), "comment");
-    if (!SK("composer")) F(eq_os(a.composer, b.composer), "composer");
-    if (!SK("duration")) F(a.duration == b.duration, "duration");
-    if (!SK("file_bytes")) F(a.file_bytes == b.file_bytes, "file_bytes");
-    if (!SK("genre")) F(eq_os(a.genre, b.genre), "genre");
-    if (!SK("hot_cues"))
-    {
-        F(a.hot_cues.size() == b.hot_cues.size(), "hot_cues size");
-        for (size_t i = 0; i < a.hot_cues.size() && i < b.hot_cues.size(); ++i)
-        {
-            F(a.hot_cues[i].has_value() == b.hot_cues[i].has_value(), "hot cue slot presence");
-            if (a.hot_cues[i] && b.hot_cues[i]) F(same_str(a.hot_cues[i]->label, b.hot_cues[i]->label) && B(a.hot_cues[i]->sample_offset) == B(b.hot_cues[i]->sample_offset) && a.hot_cues[i]->color == b.hot_cues[i]->color, "hot cue");
-        }
-    }
-    if (!SK("key")) F(a.key == b.key, "key");
-    if (!SK("last_played_at")) F(a.last_played_at == b.last_played_at, "last_played_at");
-    if (!SK("loops"))
-    {
-        F(a.loops.size() == b.loops.size(), "loops size");
-        for (size_t i = 0; i < a.loops.size() && i < b.loops.size(); ++i)
-        {
-            F(a.loops[i].has_value() == b.loops[i].has_value(), "loop slot presence");
-            if (a.loops[i] && b.loops[i]) F(same_str(a.loops[i]->label, b.loops[i]->label) && B(a.loops[i]->start_sample_offset) == B(b.loops[i]->start_sample_offset) && B(a.loops[i]->end_sample_offset) == B(b.loops[i]->end_sample_offset) && a.loops[i]->color == b.loops[i]->color, "loop");
-        }
-    }
-    if (!SK("main_cue")) F(eq_od(a.main_cue, b.main_cue), "main_cue");
-    if (!SK("publisher")) F(eq_os(a.publisher, b.publisher), "publisher");
-    if (!SK("rating")) F(a.rating == b.rating, "rating");
-    if (!SK("relative_path")) F(eq_os(a.relative_path, b.relative_path), "relative_path");
-    if (!SK("sample_count")) F(a.sample_count == b.sample_count, "sample_count");
-    if (!SK("sample_rate")) F(eq_od(a.sample_rate, b.sample_rate), "sample_rate");
-    if (!SK("title")) F(eq_os(a.title, b.title), "title");
-    if (!SK("track_number")) F(a.track_number == b.track_number, "track_number");
-    if (!SK("year")) F(a.year == b.year, "year");
-    if (with_waveform && !SK("waveform"))
-    {
-        F(a.waveform.size() == b.waveform.size(), "waveform size");
-        for (size_t i = 0; i < a.waveform.size() && i < b.waveform.size(); ++i) F(a.waveform[i].low.value == b.waveform[i].low.value && a.waveform[i].mid.value == b.waveform[i].mid.value && a.waveform[i].high.value == b.waveform[i].high.value, "waveform entry");
-    }
-#undef SK
-}
+#include "h_track_common.h"
 static void seed_information(v2_fixture& fx)
 {
     fx.ctx->db << "INSERT INTO Information (id, uuid, schemaVersionMajor, schemaVersionMinor, schemaVersionPatch, currentPlayedIndiciator, lastRekordBoxLibraryImportReadCounter) VALUES (?, ?, ?, ?, ?, ?, ?)"
                << (int64_t)1 << std::string{"uuid-1"} << (int64_t)2 << (int64_t)21 << (int64_t)2 << (int64_t)0 << (int64_t)0;
 }
-
 extern "C" void h_c01()
 {
     v2_fixture fx; seed_information(fx);
-    auto dbi = std::make_shared<v2::database_impl>(fx.lib);
-    track_snapshot s = sym_snapshot();
-    std::optional<djinterop::track> t;
-    bool update_path = verif_param("via_update") != 0;
-    try
-    {
-        if (update_path)
-        {   // update over a previously stored (different) snapshot
-            g_opt = 23; track_snapshot s0 = sym_snapshot();
-            t = dbi->create_track(s0);
-            t->update(s);
-        }
-        else t = dbi->create_track(s);
-    }
-    catch (const std::exception&) { verif_reach("write-rejected"); return; }
-    verif_reach("written");
-    track_snapshot s1 = t->snapshot();
-    bool resampled = !s.waveform.empty();
-    eq_snapshot(norm(s), s1, resampled ? "waveform" : "");
-    verif_reach("compared");
-    t->update(s1);
-    track_snapshot s2 = t->snapshot();
-    eq_snapshot(s1, s2);
-    verif_reach("fixed-point");
+    djinterop::database db{std::make_shared<v2::database_impl>(fx.lib)};
+    run_c01(db);
 }
-
-// ---- C06: one setter on a track created from an arbitrary snapshot; getter == value == snapshot field; nothing else moves
-#define SETTER(idx, field, setcall, getexpr, cmp)                                                                                  \
-    case idx:                                                                                                                     \
-    {                                                                                                                             \
-        setcall;                                                                                                                  \
-        track_snapshot after = t.snapshot();                                                                                      \
-        track_snapshot want = before; want.field = v.field; want = norm(want);                                                    \
-        verif_assert(cmp(getexpr, want.field), "C06: getter after set_" #field " does not return the (normalised) value set");    \
-        eq_snapshot(want, after, "", false);                                                                                      \
-        break;                                                                                                                    \
-    }
-static bool c_os(const std::optional<std::string>& a, const std::optional<std::string>& b) { return eq_os(a, b); }
-static bool c_od(const std::optional<double>& a, const std::optional<double>& b) { return eq_od(a, b); }
-template <class X, class Y> static bool c_eq(const X& a, const Y& b) { return a == b; }
 extern "C" void h_c06()
 {
     v2_fixture fx; seed_information(fx);
-    auto dbi = std::make_shared<v2::database_impl>(fx.lib);
-    track_snapshot s0 = sym_snapshot();
-    g_opt = 31; track_snapshot so = sym_snapshot();          // "any other track"
-    djinterop::track t = dbi->create_track(s0);
-    djinterop::track other = dbi->create_track(so);
-    track_snapshot before = t.snapshot();
-    track_snapshot other_before = other.snapshot();
-    g_opt = 11; track_snapshot v = sym_snapshot();           // source of new values
-    int slot = (int)verif_param("slot");
-    verif_reach("prepared");
-    switch (verif_param("op"))
-    {
-        SETTER(0, album, t.set_album(v.album), t.album(), c_os)
-        SETTER(1, artist, t.set_artist(v.artist), t.artist(), c_os)
-        SETTER(2, average_loudness, t.set_average_loudness(v.average_loudness), t.average_loudness(), c_od)
-        SETTER(3, bitrate, t.set_bitrate(v.bitrate), t.bitrate(), c_eq)
-        SETTER(4, bpm, t.set_bpm(v.bpm), t.bpm(), c_od)
-        SETTER(5, comment, t.set_comment(v.comment), t.comment(), c_os)
-        SETTER(6, composer, t.set_composer(v.composer), t.composer(), c_os)
-        SETTER(7, duration, t.set_duration(v.duration), t.duration(), c_eq)
-        SETTER(8, genre, t.set_genre(v.genre), t.genre(), c_os)
-        SETTER(9, key, t.set_key(v.key), t.key(), c_eq)
-        SETTER(10, last_played_at, t.set_last_played_at(v.last_played_at), t.last_played_at(), c_eq)
-        SETTER(11, main_cue, t.set_main_cue(v.main_cue), t.main_cue(), c_od)
-        SETTER(12, publisher, t.set_publisher(v.publisher), t.publisher(), c_os)
-        SETTER(13, rating, t.set_rating(v.rating), t.rating(), c_eq)
-        SETTER(14, sample_count, t.set_sample_count(v.sample_count), t.sample_count(), c_eq)
-        SETTER(15, sample_rate, t.set_sample_rate(v.sample_rate), t.sample_rate(), c_od)
-        SETTER(16, title, t.set_title(v.title), t.title(), c_os)
-        SETTER(17, track_number, t.set_track_number(v.track_number), t.track_number(), c_eq)
-        SETTER(18, year, t.set_year(v.year), t.year(), c_eq)
-        case 19:
-        {   // whole hot cue list
-            t.set_hot_cues(v.hot_cues);
-            track_snapshot after = t.snapshot(); track_snapshot want = before; want.hot_cues = v.hot_cues; want = norm(want);
-            auto got = t.hot_cues(); track_snapshot g = want; g.hot_cues = got;
-            eq_snapshot(want, g, "", false); eq_snapshot(want, after, "", false); break;
-        }
-        case 20:
-        {   // one hot cue slot
-            std::optional<hot_cue> c; if (!v.hot_cues.empty()) c = v.hot_cues[0];
-            t.set_hot_cue_at(slot, c);
-            track_snapshot after = t.snapshot(); track_snapshot want = before; want.hot_cues[slot] = c; want = norm(want);
-            auto got = t.hot_cue_at(slot); track_snapshot g = want; g.hot_cues[slot] = got;
-            eq_snapshot(want, g, "", false); eq_snapshot(want, after, "", false); break;
-        }
-        case 21:
-        {
-            t.set_loops(v.loops);
-            track_snapshot after = t.snapshot(); track_snapshot want = before; want.loops = v.loops; want = norm(want);
-            auto got = t.loops(); track_snapshot g = want; g.loops = got;
-            eq_snapshot(want, g, "", false); eq_snapshot(want, after, "", false); break;
-        }
-        case 22:
-        {
-            std::optional<loop> l; if (!v.loops.empty()) l = v.loops[0];
-            t.set_loop_at(slot, l);
-            track_snapshot after = t.snapshot(); track_snapshot want = before; want.loops[slot] = l; want = norm(want);
-            auto got = t.loop_at(slot); track_snapshot g = want; g.loops[slot] = got;
-            eq_snapshot(want, g, "", false); eq_snapshot(want, after, "", false); break;
-        }
-        case 23:
-        {
-            t.set_beatgrid(v.beatgrid);
-            track_snapshot after = t.snapshot(); track_snapshot want = before; want.beatgrid = v.beatgrid;
-            auto got = t.beatgrid(); track_snapshot g = want; g.beatgrid = got;
-            eq_snapshot(want, g, "", false); eq_snapshot(want, after, "", false); break;
-        }
-        case 24:
-        {
-            std::string nm = S("newname", 1);
-            verif_assume(nm[0] != '/' && nm[0] != '.');      // the symbolic byte is part of the file name, not a separator
-            std::string p = std::string{"new/"} + nm + std::string{".flac"};
-            t.set_relative_path(p);
-            track_snapshot after = t.snapshot(); track_snapshot want = before; want.relative_path = p;
-            verif_assert(same_str(t.relative_path(), p), "C06: relative_path getter");
-            verif_assert(same_str(t.filename(), p.substr(4)) && same_str(t.file_extension(), "flac"), "C06: file name / extension derived from the new relative path");
-            eq_snapshot(want, after, "", false); break;
-        }
-        default: verif_fail("unknown op");
-    }
-    verif_reach("setter-checked");
-    track_snapshot other_after = other.snapshot();
-    eq_snapshot(other_before, other_after);
-    verif_reach("other-track-checked");
+    djinterop::database db{std::make_shared<v2::database_impl>(fx.lib)};
+    run_c06(db);
 }
